@@ -452,6 +452,11 @@ def run_check(mod, tier, seed, replay=None):
                     if canon(again) != canon(before):
                         failures.append({"case": {"op": "history_mutate", "first": c1}, "impl": {"first_call": before, "same_call_after_result_was_modified": again},
                                          "expected": exp1, "key": "history:same-call-differs-after-its-earlier-result-was-modified"})
+    # after results (and lists handed out by getters) were modified by the probe: a sample of the ordinary cases once more — state
+    # that such a modification leaves behind in the package shows as ordinary failures here
+    if hasattr(mod, "mutate_live") and not replay and stats["kinds"].get("history_pair"):
+        again = list(mod.cases("quick", random.Random(seed + 13)))
+        explore(again[::max(1, len(again) // 800)])
     if model_vs_spec:
         raise Machinery("Lean spec and Python oracle disagree (machinery error): " + canon(model_vs_spec[0])[:1500])
 
